@@ -4,6 +4,7 @@ import (
 	"fmt"
 	"os"
 	"runtime"
+	"runtime/debug"
 	"testing"
 	"time"
 
@@ -71,15 +72,20 @@ func TestWakeup(t *testing.T) {
 		t.Skip("PV_OUT not set")
 	}
 	runtime.GOMAXPROCS(1)
+	defer debug.SetGCPercent(debug.SetGCPercent(-1)) // a GC cycle would ask the driver to yield inside the critical window
 	seed := uint64(envInt("PV_SEED", 1))
 	n := envInt("PV_N", 3)
 	sum := hx.NewSummary("wakeup", seed)
-	sum.Rule = "one case = fetcher + k parked waiters on a real httpCache entry; Cacheable(ttl) wakes the waiters (runnable, not yet running: GOMAXPROCS=1, no async preemption, the driver does not yield); the entry is aged by delay/1000 seconds through a verif hook (past the expiry in most cases), the driver calls Get again within microseconds (becoming the next fetcher if the entry expired), only then yields so that the waiters resume; then completes the second fetch; observation = what every waiter's Get returned / whether it parked again; non-trivial = delay beyond expiry; distinct by (k, ttl, delay)"
+	sum.Rule = "one case = fetcher + k parked waiters on a real httpCache entry; Cacheable(ttl) wakes the waiters (runnable, not yet running: GOMAXPROCS=1, no async preemption, the driver does not yield); the entry is aged by delay/1000 seconds through a verif hook (past the expiry in most cases), the driver (in 7 of 12 cases) calls Get again within microseconds (becoming the next fetcher if the entry expired), only then yields so that the waiters resume; then completes the second fetch; observation = what every waiter's Get returned / whether it parked again; non-trivial = delay beyond expiry; distinct by (k, ttl, delay, second get)"
 	header := "From Coq Require Import List ZArith.\nImport ListNotations.\nFrom Pike Require Import Model.Sys Corr.SysCorr Corr.WakeCorr.\n"
 	w := hx.NewCaseWriter(out, "wakeup", header, "list wk_case", "check_cases", 50, sum)
 	distinct := hx.NewDistinct()
-	type spec struct{ waiters, ttl, delay int }
-	specs := []spec{{1, 1, 2000}, {3, 1, 3000}, {2, 2, 1000}, {2, 1, 2000}, {4, 1, 5000}, {1, 2, 3000}, {3, 2, 0}, {2, 3, 3000}}
+	type spec struct {
+		waiters, ttl, delay int
+		second              bool
+	}
+	specs := []spec{{1, 1, 2000, true}, {3, 1, 3000, true}, {2, 2, 1000, true}, {2, 1, 2000, false}, {4, 1, 5000, true}, {1, 2, 3000, false}, {3, 2, 0, true}, {2, 3, 3000, true},
+		{3, 1, 4000, false}, {1, 1, 0, false}, {2, 2, 5000, false}, {1, 3, 2000, false}}
 	for i := 0; i < n && i < len(specs); i++ {
 		sp := specs[i]
 		// if the implementation hangs in this case, the orchestrator finds the case here
@@ -111,9 +117,13 @@ func TestWakeup(t *testing.T) {
 		start := time.Now()
 		hc.Cacheable(mkResp(1), sp.ttl)           // wakes the waiters (runnable, not running)
 		hc.VerifAgeBy(int64(sp.delay / 1000))     // `delay` seconds pass
-		st2, r2 := hc.Get()                        // next request: refetches if the entry expired
+		st2, r2 := cache.Status(-1), (*cache.HTTPResponse)(nil)
+		main2 := "TOther"
+		if sp.second {
+			st2, r2 = hc.Get() // next request: refetches if the entry expired
+			main2 = tobsOfGet(getResult{st2, ridOf(r2)})
+		}
 		elapsed := time.Since(start)
-		main2 := tobsOfGet(getResult{st2, ridOf(r2)})
 		for y := 0; y < 20; y++ {
 			runtime.Gosched() // now the waiters resume
 		}
@@ -133,15 +143,22 @@ func TestWakeup(t *testing.T) {
 		after1 := collect()
 		if st2 == cache.StatusFetching {
 			hc.Cacheable(mkResp(2), 60)
+		} else if !sp.second {
+			for _, o := range after1 {
+				if o == "(TUpstream LFetching)" { // a resumed waiter became the next fetcher: complete its fetch
+					hc.Cacheable(mkResp(2), 60)
+					break
+				}
+			}
 		}
 		for y := 0; y < 20; y++ {
 			runtime.Gosched()
 		}
 		after2 := collect()
-		term := fmt.Sprintf("{| wk_waiters := %d; wk_ttl := %d; wk_delay_ms := %d; wk_main2 := %s; wk_after_resume := %s; wk_after_second := %s |}",
-			sp.waiters, sp.ttl, sp.delay, main2, hx.List(after1), hx.List(after2))
+		term := fmt.Sprintf("{| wk_waiters := %d; wk_ttl := %d; wk_delay_ms := %d; wk_second := %s; wk_main2 := %s; wk_after_resume := %s; wk_after_second := %s |}",
+			sp.waiters, sp.ttl, sp.delay, hx.Bool(sp.second), main2, hx.List(after1), hx.List(after2))
 		_ = start
-		rep := map[string]interface{}{"critical_section_us": elapsed.Microseconds(), "waiters": sp.waiters, "ttl": sp.ttl, "delay_ms": sp.delay, "main_second_get": main2, "waiters_after_resume": after1, "waiters_after_second_fetch": after2}
+		rep := map[string]interface{}{"critical_section_us": elapsed.Microseconds(), "waiters": sp.waiters, "ttl": sp.ttl, "delay_ms": sp.delay, "second_get_before_resume": sp.second, "main_second_get": main2, "waiters_after_resume": after1, "waiters_after_second_fetch": after2}
 		w.Add(term, rep)
 		sum.Evaluations++
 		if sp.delay > sp.ttl*1000+1000 {
